@@ -86,8 +86,11 @@ ActDeco   == {A(d, "", "", "", "") : d \in {"power", "iivruv", "timevar", "weigh
 ActAbs    == {A("abs", "", "", a, "") : a \in {"FO", "ZO", "SEQ", "INST"}}
 ActTransit == {A("transit", "", "", n, "") : n \in {"0", "1", "3"}}
 
+\* the mean absorption time exists as an individual parameter only while the model has an absorption phase
+HasParam(mm, p) == p = "" \/ p # "MAT" \/ mm.abs \in {"FO", "ZO", "SEQ"}
 Enabled(mm, a) ==
     LET w == World(mm.model) IN
+    HasParam(mm, a.p) /\
     CASE a.k = "addcov"  -> a.x \in EffectsFor(w.ctype[a.c])
       [] a.k = "rmcov"   -> <<a.p, a.c>> \in mm.cov
       \* a second eta on one parameter would need explicit names for the eta and its variance: not in the alphabet
@@ -104,7 +107,8 @@ Enabled(mm, a) ==
       [] a.k = "timevar" -> mm.deco = {} /\ mm.err.kind # "none" /\ mm.err.trans = "none"
       [] a.k = "weighted" -> mm.deco = {} /\ mm.err.kind \in {"add", "prop"} /\ mm.err.trans = "none"
       \* the documented "never run" combinations of C08 are not part of this property's alphabet
-      [] a.k = "abs"     -> mm.transits = 0
+      \* (totality of setter sequences is C08's property; SEQ -> INST is its known finding C08-F4)
+      [] a.k = "abs"     -> mm.transits = 0 /\ ~(mm.abs = "SEQ" /\ a.x = "INST")
       [] a.k = "transit" -> mm.abs \in {"FO", "INST"}
       [] OTHER -> FALSE
 
@@ -113,7 +117,8 @@ AlloTargets(mm, a) == {p \in World(mm.model).params \cap AlloParams : <<p, a.c>>
 \* add_covariate_effect on a pair that already has an effect / add_allometry when the variable is
 \* already used on every scaled parameter: documented no-op.   Setting the error model a model already has: no-op.
 Noop(mm, a) ==
-    CASE a.k = "addcov" -> <<a.p, a.c>> \in mm.cov
+    \* (an IOV makes the parameter depend on the occasion column: add_covariate_effect then "already exists")
+    CASE a.k = "addcov" -> <<a.p, a.c>> \in mm.cov \/ (a.p \in mm.iov /\ a.c = World(mm.model).occ)
       [] a.k = "seterr" -> mm.err = [kind |-> a.x, trans |-> a.y]
       [] a.k = "allometry" -> AlloTargets(mm, a) = {}
       [] a.k = "abs"    -> mm.abs = a.x
@@ -142,7 +147,12 @@ Apply(mm, a) ==
            [] a.k = "seterr" -> [mm EXCEPT !.err = [kind |-> a.x, trans |-> a.y]]
            [] a.k = "rmerr"  -> [mm EXCEPT !.err = [kind |-> "none", trans |-> "none"]]
            [] a.k \in {"power", "iivruv", "timevar", "weighted"} -> [mm EXCEPT !.deco = @ \cup {a.k}]
-           [] a.k = "abs" -> [mm EXCEPT !.abs = a.x]
+           [] a.k = "abs" ->
+                IF a.x = "INST" /\ "MAT" \in DOMAIN mm.ext
+                THEN \* the absorption parameter disappears with the depot; a later absorption setter creates a plain one
+                     [mm EXCEPT !.abs = a.x, !.ext["MAT"] = <<>>, !.iov = @ \ {"MAT"},
+                                !.cov = {pc \in @ : pc[1] # "MAT"}]
+                ELSE [mm EXCEPT !.abs = a.x]
            [] a.k = "transit" ->
                 [mm EXCEPT !.transits = (CASE a.x = "0" -> 0 [] a.x = "1" -> 1 [] OTHER -> 3),
                            \* set_transit_compartments(n > 0) on an instantaneous-absorption model creates the depot
